@@ -269,6 +269,18 @@ func wConfig(prop, tier string) *Config {
 				{Name: "edenb-burn-depth2", Roots: []string{"R8"}, Ops: []string{"unstake_elys_lp1", "unstake_elys_lp1_60pct", "unstake_elys_lp1_90pct", "unstake_elys_lp1_995permille", "unstake_elys_lp1_all", "uncommit_eden_lp1", "uncommit_eden_lp1_all", "uncommit_edenb_lp1_all", "commit_edenb_lp1", "estaking_withdraw_lp1", "stake_elys_lp1", "gap_2d", "nofeed", "empty"}, Depth: 2, Dev: 3},
 				{Name: "epoch-hooks-depth2", Roots: []string{"R11"}, Ops: []string{"gap_1h", "gap_2d", "gap_8d", "gap_40d", "nofeed", "nofeed_2d", "empty", "mc_claim_lp1", "claim_vesting_lp1", "vest_eden_lp1", "fee_tx_uelys", "unstake_elys_lp1", "cfg_es_provider0", "cfg_vest_blocks0"}, Depth: 2, Dev: 3}}
 		}
+		// reward distribution among SEVERAL receivers (the validator and the virtual Eden / Eden Boost
+		// validators of root R8) under every boundary value of the SDK distribution parameters, with ops that
+		// change the receivers' shares
+		{
+			first := autoCfgOpNamesFor("cosmos.distribution")
+			second := []string{"empty", "fee_tx_uusdc", "stake_elys_lp1", "unstake_elys_lp1", "unstake_elys_lp1_60pct", "commit_edenb_lp1", "uncommit_eden_lp1", "gap_1h"}
+			d := 2
+			if thorough {
+				d = 3
+			}
+			cfg.Phases = append(cfg.Phases, Phase{Name: fmt.Sprintf("distribution-params-depth%d", d), Roots: []string{"R8"}, Ops: append(append([]string{}, first...), second...), First: first, Second: second, Depth: d, Dev: 3})
+		}
 	case "C20":
 		ops := []string{"ts_spot_limitbuy_met_own1", "ts_spot_limitbuy_unmet_own1", "ts_spot_limitsell_met_own1", "ts_spot_stoploss_unmet_own1", "ts_spot_limitbuy_met_own2", "ts_marketbuy_own2",
 			"ts_perp_long_met_own1", "ts_perp_long_unmet_own1", "ts_perp_short_unmet_own1", "ts_perp_long_met_huge_own1", "ts_perp_long_met_own2",
